@@ -98,3 +98,48 @@ func KitPair() (WrapFn, UnwrapFn, error) {
 	}
 	return wrap, unwrap, nil
 }
+
+// Vault is a caching key provider (a key cache / in-memory vault): its wrap callback KEEPS the plaintext key slice it
+// was given and issues a random token as wrapped key; its unwrap callback returns the SAME retained slice on every
+// call.  Nothing in Encrypt/Decrypt may modify that memory: Intact compares it with a private snapshot.
+type Vault struct {
+	mu       sync.Mutex
+	retained map[string][]byte
+	snapshot map[string][]byte
+}
+
+func NewVault() *Vault { return &Vault{retained: map[string][]byte{}, snapshot: map[string][]byte{}} }
+
+func (v *Vault) Wrap(k []byte, alg, name string, nonce []byte) ([]byte, []byte, error) {
+	v.mu.Lock()
+	defer v.mu.Unlock()
+	tok := make([]byte, 32)
+	if _, err := rand.Read(tok); err != nil {
+		return nil, nil, err
+	}
+	v.retained[string(tok)] = k
+	v.snapshot[string(tok)] = append([]byte{}, k...)
+	return tok, nil, nil
+}
+
+func (v *Vault) Unwrap(w []byte, alg, name string, nonce, tag []byte) ([]byte, error) {
+	v.mu.Lock()
+	defer v.mu.Unlock()
+	k, ok := v.retained[string(w)]
+	if !ok {
+		return nil, errors.New("verif vault: unknown wrapped key")
+	}
+	return k, nil
+}
+
+// Intact reports whether every retained key still has the bytes it had when it was stored.
+func (v *Vault) Intact() bool {
+	v.mu.Lock()
+	defer v.mu.Unlock()
+	for t, k := range v.retained {
+		if string(k) != string(v.snapshot[t]) {
+			return false
+		}
+	}
+	return true
+}
